@@ -94,7 +94,7 @@ CHECKS = {
             "publication variant; preemption bound 1-3 quick, 3-5 thorough. Oracle: every value read was written (no mix of fields), "
             "per-reader monotone, not older than a published write.",
             "Readers go through SyncCellReader::read/try_read, the exact path of Scheduler::time()/Context::time(); the writer is SyncCell::write as used by Simulation.", "5/C15"),
-    "C16": ("simx", "exploration", S_TECH,
+    "C16": ("simx+shutx", "exploration", S_TECH,
             "Hierarchies of depth 0..3 whose init scripts send events and queries to neighbours through capacity-1/2 "
             "mailboxes, under every pick order: one init per model, inside SimInit::init, before its first handler; early "
             "messages processed exactly once; names parent.child in contexts and in Panic/NoRecipient/Deadlock reports.",
@@ -152,7 +152,7 @@ EXTRA = {
     "C10": " Also: the same partitions with simulations starting 7 s before the epoch and 2 ns before it; periodic source actions whose source has 2-4 connections to one model with mailbox capacity 1-2; non-async and context-free input methods.",
     "C11": " Also: the fault sequences in a simulation built on a thread on which an earlier simulation was terminated by a panic / NoRecipient, including a simulation without any model. On the multi-threaded executor, handlers of the failed step still completing on other workers when the failing call returns are not counted as further attempts (DESIGN 6.2).",
     "C13": " Programs with two executor threads taking the scheduled task from the same slot (successive polls on different threads, ordered only by the task's state word).",
-    "C16": " On the real 2- and 4-worker executor: a hub whose init wakes 700 / 1500 idle models at once while the other workers are kept busy (every init exactly once, every early message processed, no model abandoned).",
+    "C16": " Engine M: four of the init hierarchies on the real 2/3-worker executor under every schedule within the preemption bound (a worker going idle at the wrong moment must not leave init unfinished). Also the naming scenarios on the single-threaded executor with a step timeout configured (helper thread). On the real 2- and 4-worker executor: a hub whose init wakes 700 / 1500 idle models at once while the other workers are kept busy (every init exactly once, every early message processed, no model abandoned).",
     "C12": " Engine L: the real queue under loom (2 producers + consumer, capacities 1-2, close while pushing): no lost, "
            "duplicated or torn message, per-producer FIFO. Engine M: the real Sender/Receiver (async-event + diatomic-waker) "
            "under the preemption-bounded DFS: 1-3 producer threads x 1-3 messages on capacity 1-2 (senders do block), "
@@ -210,7 +210,7 @@ def main():
             "add_only": True,
         },
         "engines": [
-            {"name": "shutx", "path": "engines/shutx", "serves_properties": ["C01", "C02", "C03", "C04", "C05", "C06", "C07", "C08", "C12", "C14", "C15", "C17", "C18", "C19"],
+            {"name": "shutx", "path": "engines/shutx", "serves_properties": ["C01", "C02", "C03", "C04", "C05", "C06", "C07", "C08", "C12", "C14", "C15", "C16", "C17", "C18", "C19"],
              "kind_free_text": "mirror of /repo/nexosim/src compiled against shuttle 0.9.3 (engines/mirror/mirror.py rewrites import lines only); own preemption-bounded DFS scheduler; real MT executor, channel, Simulation"},
             {"name": "loomx", "path": "engines/loomx", "serves_properties": ["C04", "C05", "C12", "C13", "C14", "C15"],
              "kind_free_text": "mirror of /repo/nexosim/src compiled against loom 0.7.2; loom DPOR with preemption bounds on the real queue, task, seqlock cell, cached lock"},
